@@ -478,7 +478,7 @@ class C04(fw.Property):
     coq_props = "Props/C04.v"
     gen_jobs = []
     model_imports = ["Verif.Model.C04"]
-    quick_budget = 420
+    quick_budget = 380
     thorough_budget = 5000
     search_factor = 2
     design_ref = "DESIGN.md section 9"
@@ -490,11 +490,11 @@ class C04(fw.Property):
                   "the last ACK/RST sent under that key since the first arrival (CON) or nothing (NON, or no ACK yet), changes no state and never "
                   "raises; copies neither extend nor shorten the lifetime: the key is forgotten exactly when the expiry timer armed at the first arrival fires "
                   "(first arrival + EXCHANGE_LIFETIME) and the next copy is executed; a key that did not arrive stays unknown whatever other endpoints do; "
-                  "other remotes' use of the same mid is independent; the repeated reply is an ACK unless the peer reused the live message ID for a "
+                  "none of the message layer's internal-error branches is reachable (C04_no_exception); other remotes' use of the same mid is independent; the repeated reply is an ACK unless the peer reused the live message ID for a "
                   "confirmable non-request. The model is tied to the code by running both on the same event scripts.")
     level_note = ("Hand-written model (no translated kernel): trusted through the correspondence streams only. Not modelled: multicast, shutdown, "
                   "outgoing client requests, observe, block-wise, non-default TransportTuning of incoming messages, continuation after an internal "
-                  "exception (KeyError/AssertionError branches are modelled as outputs and are unreachable in every run; no theorem excludes them). A peer that reuses a live "
+                  "exception (the KeyError/AssertionError branches are modelled as outputs; C04_no_exception proves them unreachable from the initial state). All ACKs sent under one key inside its lifetime are one message (C04_single_ack, unconditional). A peer that reuses a live "
                   "message ID for a ping or an unmatched CON response makes the remembered reply an RST (C04_impolite_peer_gets_rst); "
                   "C04_dup_reply_is_ack carries that side condition explicitly.")
     rule = ("streams: scenario = one request (fast/slow/failing/missing/No-Response/forced CON or NON response; CON or NON) followed through its life with "
